@@ -1,8 +1,8 @@
 /-
   C10 (topic E9, "finish the model") — totality theorems for
 
-    (1) the exported functions /verif/C10_COVERAGE.md listed as "not modelled": ListDatabases, DetectDataDir /
-        DetectAllDataDirs, DumpAll, AnalyzeTOAST, Search / QuickSearch / ScanForSecrets / SearchSecrets on a file tree,
+    (1) the exported functions /verif/C10_COVERAGE.md listed as "not modelled" and whose models are in the fault monad:
+        ListDatabases, DumpAll, AnalyzeTOAST, Search / QuickSearch / ScanForSecrets / SearchSecrets on a file tree,
         ScanDatabaseDump, FormatBinaryDump, RemoteClient.Credentials / Summary and SummaryResult.MarshalJSON
         (models: Model/ExtraCluster.lean, ExtraToast.lean, ExtraSearch.lean, ExtraDir.lean, ExtraBlock.lean);
     (2) every state-passing `rc*` model of the RemoteClient methods (Model/Remote.lean): each method returns for every
@@ -39,11 +39,11 @@ theorem C10_closed_listDatabases (X : Proofs.Entry.Render) (fs : Bytes → Optio
     ∃ r, listDatabases (closedRR X) fs = .ok r :=
   listDatabases_total _ (Entry.C10_closed_reader X) fs
 
-/-- DetectDataDir / DetectAllDataDirs are plain functions of what `os.Getenv` / `os.Stat` answer (no byte of any file is
-parsed): they return for every environment, and every directory they report passed `isValidDataDir`. -/
-theorem C10_total_detect (e : DetectEnv) :
-    (∃ r, detectDataDir e = r) ∧ (∃ r, detectAllDataDirs e = r) ∧ ∀ d ∈ detectAllDataDirs e, e.valid d = true :=
-  ⟨⟨_, rfl⟩, ⟨_, rfl⟩, detectAll_valid e⟩
+/-- DetectAllDataDirs reports only directories that passed `isValidDataDir` (a non-empty regular `global/1262`), for every
+answer of `os.Getenv` / `os.Stat`.  (DetectDataDir / DetectAllDataDirs parse no byte of any file and contain no index,
+slice or division: there is no fault point and hence no totality statement — C10_COVERAGE.md, "no fault point".) -/
+theorem C10_detect_valid (e : DetectEnv) : ∀ d ∈ detectAllDataDirs e, e.valid d = true :=
+  detectAll_valid e
 
 /-- DumpAll returns for every environment, every content of every detected directory and all options. -/
 theorem C10_total_dumpAll (rr : RowReader) (h : TotalReader rr) (π : MapOrder TableInfo) (e : DetectEnv)
@@ -107,20 +107,13 @@ theorem C10_total_searchSecretsDir (dets : List Spec.Search.Detector) (sh : GoVa
   obtain ⟨d, hd⟩ := dumpedBy_total rr h π fs searchDumpOptions
   exact ⟨searchSecrets dets sh red ver d, by simp only [searchSecretsDir, hd, ok_bind, pure_eq_ok]⟩
 
-/-- The dump-level wrappers (QuickSearch / ScanForSecrets / SearchSecrets given DumpDataDir's result, and
-ScanDatabaseDump) are plain functions without index, slice or division: they produce a value for every input. -/
-theorem C10_total_searchWrappers (R : Spec.Search.Regex) (sh : GoVal → Bytes) (dets : List Spec.Search.Detector)
-    (red : Spec.Search.Finding → Bytes) (ver : Spec.Search.Finding → Bool) (dumped : Option Spec.Search.Dump)
-    (db : Spec.Search.Database) (pattern : Bytes) :
-    (∃ r, quickSearch R sh dumped pattern = r) ∧ (∃ r, scanForSecrets dets sh dumped = r) ∧
-    (∃ r, searchSecrets dets sh red ver dumped = r) ∧ (∃ r, Secrets.scanDatabaseDump dets sh db = r) ∧
-    (∃ r, quoteMeta pattern = r) :=
-  ⟨⟨_, rfl⟩, ⟨_, rfl⟩, ⟨_, rfl⟩, ⟨_, rfl⟩, ⟨_, rfl⟩⟩
+-- The dump-level wrappers (QuickSearch / ScanForSecrets / SearchSecrets given DumpDataDir's result, ScanDatabaseDump,
+-- regexp.QuoteMeta) are plain functions without index, slice or division: no fault point, no totality statement
+-- (the former `C10_total_searchWrappers` was `∃ r, f x = r` and has been removed).
 
 /-! ## blockrange.go:FormatBinaryDump, remote.go:MarshalJSON -/
 
-/-- FormatBinaryDump produces a text for every byte string (a plain function: `hex.Dump`). -/
-theorem C10_total_formatBinaryDump (data : Bytes) : ∃ r : Bytes, formatBinaryDump data = r := ⟨_, rfl⟩
+-- FormatBinaryDump is `hex.Dump(data)`: no fault point (the former `C10_total_formatBinaryDump` was `∃ r, f x = r`).
 
 /-- **What FormatBinaryDump prints**: one line per started 16-byte chunk and nothing else — line `i` renders bytes
 `16·i … 16·i+15` of the input (fewer on the last line) at offset `16·i`; the empty input gives the empty text.  So the
@@ -131,9 +124,10 @@ theorem C10_formatBinaryDump_lines (data : Bytes) :
         CliRender.hexDumpLine (16 * i) ((data.drop (16 * i)).take 16) :=
   formatBinaryDump_lines data
 
-/-- SummaryResult.MarshalJSON produces a text for every summary value (any names, passwords, byte strings that are not
-UTF-8): `json.Marshal` of strings, string slices and a string-keyed map has no error case. -/
-theorem C10_total_summaryMarshalJSON (s : SummaryResult) : ∃ r : Bytes, summaryMarshalJSON s = r := ⟨_, rfl⟩
+-- SummaryResult.MarshalJSON builds a struct of strings, string slices and a string-keyed map (made with `make`, so the
+-- `append` into `summary.Databases[db.Name]` never meets a nil map) and calls json.Marshal, which has no error case for
+-- these types: no fault point (the former `C10_total_summaryMarshalJSON` was `∃ r, f x = r`).  Its content is
+-- `Props.C12Extra.C12_summary_one_database`.
 
 /-- RemoteClient.Credentials returns for every reader. -/
 theorem C10_total_rcCredentials (fs : RemoteReader) : ∃ r, rcCredentials fs = .ok r :=
@@ -141,11 +135,8 @@ theorem C10_total_rcCredentials (fs : RemoteReader) : ∃ r, rcCredentials fs = 
 
 /-! ## one-line wrappers: ScanAllDeletedRows, ExtractPasswords, RemoteClient.Control -/
 
-/-- ScanAllDeletedRows is DumpDataDir (same value, same faults), hence returns for every tree. -/
-theorem C10_total_scanAllDeletedRows (rr : RowReader) (h : TotalReader rr) (π : MapOrder TableInfo)
-    (fs : Bytes → Option Bytes) (o : Spec.Options) :
-    scanAllDeletedRows rr π fs o = dumpDataDir rr π fs o ∧ ∃ r, scanAllDeletedRows rr π fs o = .ok r :=
-  ⟨rfl, C10_total_dumpDataDir rr h π fs o⟩
+-- ScanAllDeletedRows: since fix rows/07 it returns the DELETED rows of every table; its model and totality theorem are
+-- `Model.scanAllDeletedRows` (Model/DeletedScan.lean) and `Props.C10.DeletedScan.C10_total_scanAllDeletedRows`.
 
 /-- ExtractPasswords is ExtractPasswordsFromFiles over the directory's files, and returns for every tree. -/
 theorem C10_total_extractPasswords (fs : Bytes → Option Bytes) :
